@@ -81,6 +81,11 @@ def _twin(spec, which=0):
     # a bytes field (and a typed list of bytes): offered bytes-like objects that are not bytes
     extra.append(dict(base, kind="bytes", key="zzblob", opts={"encoding": ["base64", "hex"][which % 2]}))
     extra.append(dict(base, kind="list", key="zzblobs", item={"kind": "bytes", "opts": {"encoding": "hex"}, "req": False, "validator": None}))
+    # a list of configurations whose items carry a typed dict and a typed list (values travel between two items)
+    extra.append({"kind": "schemalist", "key": "zzrows", "req": False, "configtype": bool(which % 2), "children": [
+        dict(base, kind="str", key="name"),
+        dict(base, kind="dict", key="limits", keyf={"kind": "str", "opts": {}, "req": False, "validator": None}, valuef={"kind": "int", "opts": {"max": 10}, "req": False, "validator": None}),
+        dict(base, kind="list", key="tags", item={"kind": "int", "opts": {"max": 10}, "req": False, "validator": None})]})
     # a plain nested section (two levels, nothing required): options of the generated command line that address one of its
     # fields while its siblings hold non-default values
     sub = {"kind": "schema", "key": "zzsec", "req": False, "children": [
@@ -139,7 +144,7 @@ def strategy(tier):
             lambda t: {"op": "setitem", "leaf": sec[t[0]], "value": t[1]})
         over = st.lists(st.sampled_from([(("zzsec", "port"), "443"), (("zzsec", "tls", "ver"), "2"), (("zzsec", "host"), "h.example"), (("zzsec", "on"), True), (("zzsec", "tls", "cert"), "c2")]), min_size=1, max_size=2).map(
             lambda l: {"op": "cmdline", "args": [(sec[p], v) for p, v in l], "ignore": None})
-        return st.fixed_dictionaries({"spec": st.just(spec), "ops": st.lists(ops.weighted((12, base), (4, transfer), (2, expand), (2, fill), (2, over), (1, frac), (1, blob)), min_size=2, max_size=n)})
+        return st.fixed_dictionaries({"spec": st.just(spec), "ops": st.lists(ops.weighted((12, base), (4, transfer), (2, expand), (2, fill), (2, over), (1, frac), (1, blob), (1, st.fixed_dictionaries({"op": st.just("row_transfer"), "field": st.sampled_from(["limits", "tags"]), "src": st.integers(0, 2), "dst": st.integers(0, 2)}))), min_size=2, max_size=n)})
     return st.tuples(worlds.schema_spec(tier), st.integers(0, len(STRICT_ITEMS) - 1)).map(lambda t: _twin(t[0], t[1])).flatmap(hist)
 
 
@@ -206,6 +211,30 @@ def run_case(case, R):
         for op in case["ops"]:
             name = op["op"]
             cfg = state["cfg"]
+            if name == "row_transfer":
+                # the typed dict / list one item holds is assigned to the same field of another item of the same list; an
+                # accepted in-place edit of the receiver afterwards "changes no other field" - the giver's included
+                try:
+                    cfg.zzrows = [{"name": "r0", "limits": {"cpu": 1, "mem": 2}, "tags": [1, 2]}, {"name": "r1"}, {"name": "r2", "limits": {"x": 3}, "tags": [3]}]
+                    src, dst = cfg.zzrows[op["src"]], cfg.zzrows[op["dst"]]
+                    if src is dst:
+                        continue
+                    setattr(dst, op["field"], getattr(src, op["field"]))
+                    giver = cc.asdict(src)
+                    mine = getattr(dst, op["field"])
+                    if isinstance(mine, dict):
+                        mine["added"] = 7
+                    elif isinstance(mine, list):
+                        mine.append(7)
+                    else:
+                        continue
+                except Exception:
+                    continue
+                R.label("op:row_transfer")
+                R.check(cc.asdict(src) == giver, "collateral", "row_transfer:" + op["field"],
+                        lambda: "zzrows[%d].%s was assigned from zzrows[%d]; an in-place edit of it changed the giver: %r -> %r" % (op["dst"], op["field"], op["src"], giver, cc.asdict(src)))
+                worlds.sweep(world, cfg, R, "row_transfer")
+                continue
             before = worlds.snapshot(cfg, cc)
             out = ops.apply_op(world, state, op)
             if out.kind == "skipped":
